@@ -22,6 +22,8 @@ type nstep struct {
 	S string `json:"s,omitempty"`
 	C string `json:"c,omitempty"`
 	V string `json:"v,omitempty"`
+	// request context of the operation(s): now | delay | dl | never (see replica.submit)
+	Ctx string `json:"ctx,omitempty"`
 	// batch: operations submitted back to back and committed as ONE delta (bsize = len(ops))
 	Ops []nop `json:"ops,omitempty"`
 }
@@ -205,7 +207,7 @@ func runNetScript(s *nscript, seed int64, tf *traceFile, res *hx.Result) {
 				if o.K == "unpin" {
 					v = "-"
 				}
-				if out, _ := r.submit(o.K, o.C, o.V); out != "ok" {
+				if out, _ := r.submit(o.K, o.C, o.V, st.Ctx); out != "ok" {
 					res.Infra("run %d: batched %s on %s refused", s.ID, o.K, st.R)
 					return
 				}
@@ -225,7 +227,7 @@ func runNetScript(s *nscript, seed int64, tf *traceFile, res *hx.Result) {
 			if st.K == "unpin" {
 				v = "-"
 			}
-			out, _ := reps[idx[st.R]].submit(st.K, st.C, st.V)
+			out, _ := reps[idx[st.R]].submit(st.K, st.C, st.V, st.Ctx)
 			rc.emit("op", "r", st.R, "op", st.K, "c", st.C, "v", v, "res", out)
 			if out != "ok" {
 				res.Infra("run %d: direct %s on %s failed without an injected fault", s.ID, st.K, st.R)
